@@ -91,7 +91,8 @@ TEXT = {
     "C13": ("SyncTest.tla (sync layer + checksum history + compare-then-roll-back) is explored exhaustively by "
             "MC_SyncTest with the monitor as invariant (deterministic games never flagged; a deviation on the k-th "
             "simulation, k>=2, reported within check_distance+2 calls naming the first affected frame; request-list "
-            "contract); real SyncTestSessions over all (check distance, k) pairs and random configurations are judged by "
+            "contract); real SyncTestSessions over all (check distance, k) pairs - the deviation either carried into later "
+            "frames or transient (only the checksum of the next save) - and random configurations are judged by "
             "the same monitor.  The deviation on the first simulation only is a known finding reproduced by the model.",
             "DESIGN.md section 3 C13"),
     "C16": ("Builder.tla is the reference validity predicate (documented rules as a state machine); TLC enumerates every "
